@@ -3,7 +3,7 @@
    Proofs/ApiProofs.v (operations) and Proofs/OldCodeProofs.v (the repaired defects). *)
 From Coq Require Import List ZArith NArith Bool Arith.
 From IE Require Import Gen.UndoGen Model.Undo Model.EditModel Model.EditOps Proofs.UndoProofs Proofs.LayerProofs Proofs.EditProofs
-  Proofs.ApiProofs Proofs.OldCodeProofs Model.DocModel Model.DocOps Proofs.DocProofs Proofs.DocApiProofs Proofs.DocRowColProofs.
+  Proofs.ApiProofs Proofs.OldCodeProofs Model.DocModel Model.DocOps Model.ScrollOps Proofs.DocProofs Proofs.DocApiProofs Proofs.DocRowColProofs Proofs.ScrollProofs.
 Import ListNotations.
 
 (* ================================================================================================================
@@ -232,17 +232,18 @@ Theorem lift_undoable : forall o x y, Undoable op_undo op_redo eqv o (xb x) (xb 
   Undoable xop_undo xop_redo xeqv (xfop o) x y.
 Proof. exact Undoable_lift. Qed.
 
-(* per-record soundness of the remaining undo operations (families as in undo_operations_sound; the side conditions inside the
-   families are exactly the complements of the known classes: SetFont needs the recorded old font to be the font of the slot it
-   writes, AddFont / ChangeFontSlot an empty target slot, ResizeBuffer / Crop a SAUCE size in sync with the buffer size) *)
+(* per-record soundness of the remaining undo operations (families as in undo_operations_sound). After the fix commits no family
+   carries a side condition on the state: SetFont records the content of the slot it writes, AddFont / ChangeFontSlot capture the
+   font of the target slot on redo and put it back on undo, ResizeBuffer / Crop record the size the SAUCE record carried *)
 Theorem undo_operations_sound_x :
   lclosed xop_undo xop_redo xeqv U_palette R_palette /\ lclosed xop_undo xop_redo xeqv U_sauce R_sauce /\
-  xstable P_setfont /\ xstable P_addfont /\ lclosed xop_undo xop_redo xeqv U_remfont R_remfont /\ xstable P_fontslot /\
+  xstable P_setfont /\ lclosed xop_undo xop_redo xeqv U_addfont R_addfont /\ lclosed xop_undo xop_redo xeqv U_remfont R_remfont /\
+  lclosed xop_undo xop_redo xeqv U_fontslot R_fontslot /\
   xstable P_replfont /\ xstable P_icemode /\ xstable P_palmode /\ xstable P_xresize /\ xstable P_xnodoc /\
   lclosed xop_undo xop_redo xeqv U_paste R_paste /\ lclosed xop_undo xop_redo xeqv U_merge R_merge /\
   lclosed xop_undo xop_redo xeqv U_crop R_crop /\ xstable P_rotate /\ xstable P_scroll.
 Proof.
-  exact (conj palette_closed (conj sauce_closed (conj setfont_stable (conj addfont_stable (conj remfont_closed (conj fontslot_stable
+  exact (conj palette_closed (conj sauce_closed (conj setfont_stable (conj addfont_closed (conj remfont_closed (conj fontslot_closed
         (conj replfont_stable (conj icemode_stable (conj palmode_stable (conj xresize_stable (conj xnodoc_stable (conj paste_closed
         (conj merge_closed (conj crop_closed (conj rotate_stable scroll_stable))))))))))))))).
 Qed.
@@ -252,15 +253,15 @@ Qed.
    set_ansi_font / set_sauce_font, add_ansi_font, replace_font_usage, change_font_slot, remove_font, set_ice_mode, set_palette_mode
    (for ANY cell conversion / palette plan), merge_layer_down, anchor_layer, stamp_layer_down, paste_clipboard_data,
    add_selection_to_mask, inverse_selection, enumerate_selections (ANY callback), clear_selection, erase_selection and the nine
-   row / column wrappers reading the selection mask, rotate_layer (ANY character table), scroll_area_up / down over the whole
-   layer width — is a sound edit whenever it is applied OUTSIDE its known class K (a predicate on the state it is applied to;
-   `never` for most) *)
-Theorem x_api_sound : forall f K, xmodelled f K ->
-  forall e e', ~ K (cur e) -> f e = Ok e' -> edit_chain xop_undo xop_redo xeqv e e'.
+   row / column wrappers reading the selection mask, rotate_layer (ANY character table), scroll_area_up / down (over the whole
+   layer width and over part of it), insert / delete row and column — is a sound edit on EVERY state on which it reports Ok.
+   (Before the fix commits for the six known findings this theorem was stated outside a known class K of each operation; the
+   classes are gone, `xmodelled` has no class index any more.) *)
+Theorem x_api_sound : forall f, xmodelled f ->
+  forall e e', f e = Ok e' -> edit_chain xop_undo xop_redo xeqv e e'.
 Proof. exact xmodelled_sound. Qed.
 
-(* x_undo_redo_history: any history over the modelled operations on the full document, each applied outside its known class
-   and reporting Ok, from a fresh editor; then EVERY interleaving of undo / redo steps: no step fails or panics and the full
+(* x_undo_redo_history: any history over the modelled operations on the full document, each reporting Ok, from a fresh editor; then EVERY interleaving of undo / redo steps: no step fails or panics and the full
    document is xeqv to the entry of one fixed timeline the walk points at *)
 Theorem x_undo_redo_history : forall fs (e0 en : XE) d, fresh e0 -> xrun fs e0 en ->
   let n := length (ustk en) in
@@ -269,31 +270,62 @@ Theorem x_undo_redo_history : forall fs (e0 en : XE) d, fresh e0 -> xrun fs e0 e
     forall w, exists e', run_ur xop_undo xop_redo w en = Ok e' /\ xeqv (cur e') (nth (walk w n n) tl d).
 Proof. exact x_history_proof. Qed.
 
-(* the known classes are not empty: inside each, the operation reports Ok and its undo does not restore the document
-   (known findings C08-setfont-records-slot0, C08-addfont-overwrites-slot, C08-fontslot-overwrites-slot, C08-resize-rewrites-sauce-size) *)
-Theorem known_setfont_witness : undo_fails_to_restore (x_set_font false (Some 8%N)) known_setfont (wit_doc [(0, 1); (2, 6)]%N None 3 2).
-Proof. exact known_setfont_witness_proof. Qed.
-Theorem known_addfont_witness : undo_fails_to_restore (x_add_ansi_font 2 (Some 8%N)) (known_addfont 2) (wit_doc [(0, 1); (2, 6)]%N None 3 0).
-Proof. exact known_addfont_witness_proof. Qed.
-Theorem known_fontslot_witness : undo_fails_to_restore (x_change_font_slot 2 3) (known_fontslot 2 3) (wit_doc [(0, 1); (2, 6); (3, 7)]%N None 3 0).
-Proof. exact known_fontslot_witness_proof. Qed.
-Theorem known_sauce_size_witness : undo_fails_to_restore (x_resize_buffer 3 1) known_sauce_size (wit_doc [(0, 1)]%N (Some (mkSauce 7 3 5)) 0 0).
-Proof. exact known_sauce_size_witness_proof. Qed.
+(* the four repaired records (fixed findings C08-setfont-records-slot0, C08-addfont-overwrites-slot, C08-fontslot-overwrites-slot,
+   C08-resize-rewrites-sauce-size): on the witness documents of the former known classes the operation followed by undo now restores
+   the document (undo_restores), while the record the code pushed BEFORE the fix commit — SetFont with the font of slot 0, AddFont /
+   ChangeFontSlot without the captured font, ResizeBuffer without the recorded SAUCE size — undone from the same state does not *)
+Theorem setfont_before_fix_refuted :
+  before_fix_refuted (x_set_font false (Some 8%N)) (wit_doc [(0, 1); (2, 6)]%N None 3 2) (XSetFont 2 (Some 1%N) 8).
+Proof. exact setfont_before_fix_refuted_proof. Qed.
+Theorem addfont_before_fix_refuted :
+  before_fix_refuted (x_add_ansi_font 2 (Some 8%N)) (wit_doc [(0, 1); (2, 6)]%N None 3 0) (XAddFont 0 2 8 None).
+Proof. exact addfont_before_fix_refuted_proof. Qed.
+Theorem fontslot_before_fix_refuted :
+  before_fix_refuted (x_change_font_slot 2 3) (wit_doc [(0, 1); (2, 6); (3, 7)]%N None 3 0) (XChangeFontSlot 2 3 None).
+Proof. exact fontslot_before_fix_refuted_proof. Qed.
+Theorem resize_sauce_size_before_fix_refuted :
+  before_fix_refuted (x_resize_buffer 3 1) (wit_doc [(0, 1)]%N (Some (mkSauce 7 3 5)) 0 0) (XResizeBuffer 4 2 3 1 None).
+Proof. exact resize_sauce_size_before_fix_refuted_proof. Qed.
 
-(* insert / delete row and column (known finding C08-rowcol-raw-lines): undoing such a record from EXACTLY the state its redo
-   produced restores the document, but the record is not invariant under xeqv: from an equivalent state that stores its rows in
-   another shape the undo panics, so these records cannot take part in x_undo_redo_history *)
-Theorem rowcol_exact_roundtrip : forall o a o1 b, is_rowcol o -> xop_redo o a = Ok (o1, b) ->
-  exists o2 a', xop_undo o1 b = Ok (o2, a') /\ xeqv a' a.
-Proof. exact rowcol_exact_roundtrip_proof. Qed.
+(* insert / delete row and column (finding C08-rowcol-raw-lines, repaired): the four records are closed under undo / redo from ANY
+   equivalent state, whatever rows and cells it happens to store; the payloads (deleted row, inserted row, deleted column) are
+   re-captured on every redo / undo and are related to the document by their cells only *)
+Theorem rowcol_operations_sound :
+  lclosed xop_undo xop_redo xeqv U_delrow R_delrow /\ lclosed xop_undo xop_redo xeqv U_insrow R_insrow /\
+  lclosed xop_undo xop_redo xeqv U_delcol R_delcol /\ xstable P_inscol.
+Proof. exact (conj delrow_closed (conj insrow_closed (conj delcol_closed inscol_stable))). Qed.
 
-Theorem rowcol_not_invariant :
-  exists a o1 b t,
+(* what each direction does, cell by cell (x, y are positions in the stored rows, inside and outside `size`) *)
+Theorem rowcol_cells :
+  (forall n L x y, rawL (del_row n L) x y = if (y <? n)%nat then rawL L x y else rawL L x (S y)) /\
+  (forall n row L x y, rawL (ins_row n row L) x y = if (y <? n)%nat then rawL L x y else if (y =? n)%nat then cell_at row x else rawL L x (pred y)) /\
+  (forall col L x y, rawL (del_col col L) x y = match col with Some c => if (x <? c)%nat then rawL L x y else rawL L (S x) y | None => rawL L x y end) /\
+  (forall col L x y, rawL (ins_col col L) x y =
+     match col with Some c => if (x <? c)%nat then rawL L x y else if (x =? c)%nat then invisible else rawL L (pred x) y | None => rawL L x y end).
+Proof. exact (conj del_row_raw (conj ins_row_raw (conj del_col_raw ins_col_raw))). Qed.
+
+(* before the fix commit the undo worked on the rows that happened to be stored: from a state that holds the same cells as the one the
+   redo produced but stores fewer rows, DeleteRow::undo panicked in Vec::insert (site 40); the repaired undo restores the document *)
+Theorem rowcol_before_fix_refuted :
+  exists a b t,
     a = rc_state [[rc_cell]; []; []] 3 /\
-    xop_redo (XDeleteRow 0 2 []) a = Ok (o1, b) /\ xeqv t b /\
-    (exists o2 a', xop_undo o1 b = Ok (o2, a') /\ xeqv a' a) /\
-    xop_undo o1 t = Panic 40.
-Proof. exact rowcol_not_invariant_proof. Qed.
+    xop_redo (XDeleteRow 0 2 []) a = Ok (XDeleteRow 0 2 [], b) /\ xeqv t b /\
+    old_delete_row_undo 0 2 [] t = Panic 40 /\
+    (exists o2 a', xop_undo (XDeleteRow 0 2 []) t = Ok (o2, a') /\ xeqv a' a).
+Proof. exact rowcol_before_fix_refuted_proof. Qed.
+
+(* scroll_area_up / scroll_area_down over part of the layer width (finding C08-scroll-area-raw-lines, repaired): the row surgery changes
+   cells of the area only, so the UndoLayerChange snapshot frame around it is a sound edit; lifted into the full document it is the
+   partial-width branch of x_scroll_area_ud, a constructor of xmodelled *)
+Theorem scroll_area_ud_sound : forall up, sound_edit op_undo op_redo eqv (area_body (mut_scroll_ud up)).
+Proof. exact area_body_scroll_ud_sound. Qed.
+
+(* before the fix commit a one-row area was drained and never filled again: the cells right of the area moved left, outside the recorded
+   snapshot (here: columns 1..1 of a four-cell row; the cell in column 2 changes); the repaired surgery leaves a one-row area as it is *)
+Theorem scroll_area_before_fix_refuted :
+  let row := [cA; cQ; cA; cQ] in
+  snd (drain_row 1 2 row) = [cA; cA; cQ] /\ scroll_ud_rows true 1 2 [row] = [row] /\ scroll_ud_rows false 1 2 [row] = [row].
+Proof. repeat split; vm_compute; reflexivity. Qed.
 
 (* Non-vacuity: a history over the full document (palette switch, set_char, paste, merge down, resize with layers, add font,
    ice mode) satisfies the premises of x_undo_redo_history and changes palette, layers, size, font table and mode *)
@@ -308,16 +340,37 @@ Example xex_hist_runs : exists en, xrun xex_hist (wit_doc [(0, 1)]%N None 3 0) e
 Proof.
   eexists. split.
   - unfold xex_hist.
-    eapply xrun_cons; [apply xm_switch_to_palette|intros []|vm_compute; reflexivity|].
-    eapply xrun_cons; [apply xm_lift, lf_set_char|intros []|vm_compute; reflexivity|].
-    eapply xrun_cons; [apply xm_paste|intros []|vm_compute; reflexivity|].
-    eapply xrun_cons; [apply xm_merge_layer_down|intros []|vm_compute; reflexivity|].
-    eapply xrun_cons; [apply xm_resize_buffer_layers|intro H; apply H; exact I|vm_compute; reflexivity|].
-    eapply xrun_cons; [apply xm_add_ansi_font|intro H; apply H; reflexivity|vm_compute; reflexivity|].
-    eapply xrun_cons; [apply (xm_set_ice_mode ice_conv)|intros []|vm_compute; reflexivity|].
+    eapply xrun_cons; [apply xm_switch_to_palette|vm_compute; reflexivity|].
+    eapply xrun_cons; [apply xm_lift, lf_set_char|vm_compute; reflexivity|].
+    eapply xrun_cons; [apply xm_paste|vm_compute; reflexivity|].
+    eapply xrun_cons; [apply xm_merge_layer_down|vm_compute; reflexivity|].
+    eapply xrun_cons; [apply xm_resize_buffer_layers|vm_compute; reflexivity|].
+    eapply xrun_cons; [apply xm_add_ansi_font|vm_compute; reflexivity|].
+    eapply xrun_cons; [apply (xm_set_ice_mode ice_conv)|vm_compute; reflexivity|].
     apply xrun_nil.
   - repeat split; reflexivity.
 Qed.
 
 Example xex_fresh : fresh (wit_doc [(0, 1)]%N None 3 0).
 Proof. split; reflexivity. Qed.
+
+(* a history with the four row / column operations on a ragged layer (one stored row of two cells in a 4x2 layer, caret at (1, 0)):
+   the row of cells is deleted, an empty one inserted *)
+Definition xex_rc_doc : XE :=
+  mkEs (mkX (mkE 4 2 [mkLayer 0 true false false false false 0 0 0 4 2 (10, 0)%N [[xex_cell; xex_cell]]] 0 None false 1 0)
+            [0%N; 170%N] [(0, 1)]%N None 0 1 0 0 (mkMask 4 2 [])) [] [].
+Definition xex_rc_hist : list (XE -> res XE) := [x_insert_column; x_delete_row; x_delete_column; x_insert_row; x_set_palette_mode_gen (fun _ s => Ok (x_pal s, xlayers s)) 0].
+
+Example xex_rc_hist_runs : exists en, xrun xex_rc_hist xex_rc_doc en /\ length (ustk en) = 5%nat /\
+  (forall L, nth_error (xlayers (cur en)) 0 = Some L -> l_lines L = [[]; []]).
+Proof.
+  eexists. split.
+  - unfold xex_rc_hist.
+    eapply xrun_cons; [apply xm_insert_column|vm_compute; reflexivity|].
+    eapply xrun_cons; [apply xm_delete_row|vm_compute; reflexivity|].
+    eapply xrun_cons; [apply xm_delete_column|vm_compute; reflexivity|].
+    eapply xrun_cons; [apply xm_insert_row|vm_compute; reflexivity|].
+    eapply xrun_cons; [apply xm_set_palette_mode|vm_compute; reflexivity|].
+    apply xrun_nil.
+  - split; [reflexivity|]. intros L H. vm_compute in H. injection H as <-. reflexivity.
+Qed.
